@@ -20,6 +20,10 @@ Next == \/ /\ mode = "text" /\ UNCHANGED <<mode, ba, be>>
 
 RebuildHolds == mode = "text" => \A o \in OptsC15 : RebuildOK(A, E, o)
 BinaryOffsetExact == mode = "bin" => BinImpl(ba, be) = BinSpec(ba, be)
+\* a common prefix shifts the report (what licenses the harness to replay every row behind k identical bytes, k in the thousands)
+Pad(k) == [i \in 1..k |-> 7]
+BinaryShift == mode = "bin" => \A k \in 0..3 :
+    BinSpec(Pad(k) \o ba, Pad(k) \o be) = [offset |-> BinSpec(ba, be).offset + k, alen |-> Len(ba) + k, elen |-> Len(be) + k]
 
 OptRow(o) == [o |-> o, pass |-> SpecPass(A, E, o), dem |-> Demanded(A, E, o), rdem |-> RebuildDemanded(A, E, o),
               diffs |-> IF RebuildDemanded(A, E, o) THEN SpecDiffPairs(A, E, o) ELSE <<>>,
